@@ -11,10 +11,9 @@ PROP = {'engine': 'q',
                   'ARRAYITEMS(_smallQueue) is observed from the compiled code and is a parameter of the model',
                   'the std::deque reference model and the canary item types inside harness/q.cpp'],
  'assumptions': ['item counts and indices below 2^32, no allocation failure (B_OUT_OF_MEMORY / B_RESOURCE_LIMIT paths are not modelled)',
-                 'the model follows the REPAIRED code for the open findings C16-D3 (SwapContentsAux leaves items alive in the inline buffer), C16-D4 '
-                 '(self-prepend reads shifted items), C16-D5 (InsertItemsAt with a pointer into the own array) and C16-D6 (self-move empties the Queue); '
-                 'their trigger classes are part of the random stream, so on a tree without the repairs the check reports them as KNOWN-FINDING '
-                 '(known_findings.json, corpus/C16/q-known-*.ops)',
+                 'findings C16-D3 (SwapContentsAux left items alive in the inline buffer), C16-D4 (self-prepend read shifted items), C16-D5 '
+                 '(InsertItemsAt with a pointer into the own array) and C16-D6 (self-move emptied the Queue) are repaired in /repo; the model mirrors the '
+                 'repaired code and the trigger classes are part of the random stream and of corpus/C16/q-regress-*.ops',
                  'the item returned by the no-argument AddTailAndGet()/AddHeadAndGet() of a trivial item type is unspecified until written (documented)'],
  'rule': 'random op sequences (66 op kinds, incl. move/copy construction, self-aliased queue and pointer-into-own-array arguments, self-move; four boundary-directed scenario generators: multi-removal landing the head/tail exactly on the physical array end, emptying in every way followed by size-setting growth, transfers between inline-with-head-offset/heap/never-allocated queues, self-aliasing with and without spare slots; single/multi add and remove at both ends, insert/remove/replace at index, self-aliased arguments, swap, reverse, '
          'sort, sorted insert, remove-by-value, de-duplication, EnsureSize with/without set-size/extra/shrink, ShrinkToFit, Normalize, copy, move, '
@@ -28,19 +27,22 @@ TEXT = {'design_ref': 'DESIGN.md section 4, C16',
               'differential correspondence of model and real code on random API op sequences for a trivial and two owning item types, with a std::deque direct '
               'oracle',
  'text': 'Proved in Lean for every ring state satisfying the representation invariant — which for owning item types includes "every slot outside the window '
-         'and the idle inline buffer hold the default item" — hence for every history from a fresh Queue, for every inline capacity and item type: the index '
-         'kernels stay in range and equal (head+i) mod size; 15 op kinds (add/remove at head and tail, get/replace at index, Clear with/without release, '
-         'EnsureSize with and without set-size/extra/allowShrink on all paths, RemoveHeadMulti/RemoveTailMulti, AddTailMulti/AddHeadMulti from an array or '
-         'another queue, operator=, CopyFrom, Swap) keep the invariant, commute with the abstraction to the ideal List operation and return the same result; '
-         'failure is reported exactly when the ideal operation is undefined and then nothing changes; the visible result of an operation depends only on what '
-         'was visible before; set-size pads with default items only; Normalize (contiguous and rotation branches) is the identity on the content.  The '
-         'remaining operations (RemoveItemAt, InsertItemAt, InsertItemsAt, self-aliased multi forms, Reverse, Sort, remove-by-value, de-duplication, '
-         'SwapContents/Plunder, the copy branch of Normalize) are modelled and covered by the correspondence run and the std::deque oracle only (theorems '
-         'named _partial).',
+         'and the idle inline buffer hold the default item" — hence for every history on any number of fresh Queues, for every inline capacity and item type: '
+         'the index kernels stay in range and equal (head+i) mod size; 53 of the 66 op kinds of the engine (27 single-Queue kinds: add/remove at head and tail, '
+         'get/replace at index, Clear, EnsureSize/ShrinkToFit on all paths, RemoveHeadMulti/RemoveTailMulti, AddTailMulti/AddHeadMulti/InsertItemsAt from an '
+         'array, another Queue, the Queue itself and a pointer into its own array, operator=, CopyFrom, Swap, RemoveItemAt, InsertItemAt, Sort as a stable '
+         'sort, Normalize in all branches, ==/StartsWith/EndsWith; 6 multi-Queue kinds: another register as the argument, SwapContents incl. SwapContentsAux, '
+         'move assignment, move and copy construction) keep the invariant, commute with the abstraction to the ideal List operation and return the same '
+         'result; failure is reported exactly when the ideal operation is undefined and then nothing changes; the visible result depends only on what was '
+         'visible before; set-size pads with default items only; Normalize is the identity on the content; SwapContents/Plunder exchange/transfer exactly '
+         'the items and leave no stale item in the vacated inline slots; the no-argument AddTailAndGet hands out the default item for owning types.  The 13 '
+         'op kinds that search or reorder by item value (IndexOf, LastIndexOf, ReverseItemOrdering, InsertItemAtSortedPosition, RemoveAll/First/'
+         'LastInstanceOf, RemoveSortedDuplicateItems, RemoveDuplicateItems) are modelled and covered by the correspondence run and the std::deque oracle only '
+         '(that is the exact gap of the theorems still named _partial).',
  'note': 'Sort and the rotation inside Normalize are abstracted to their functional result (stable sort / rotation).  Findings C16-D1/D2 (EnsureSize with '
          'allowShrink below the item count) are fixed in /repo (97f299d): their trigger class is back in the random stream and the corpus files are regression '
-         'cases.  C16-D3..D6 (stale inline items after SwapContentsAux, self-prepend, InsertItemsAt with a pointer into the own array, self-move) are open '
-         '(known_findings.json; proposed repairs exist): the model follows the repaired code, their trigger classes are in the random stream and in '
-         'corpus/C16/q-known-*.ops, so the check prints KNOWN-FINDING until the repairs are applied.  Trusted: Lean kernel, '
+         'cases.  C16-D3..D6 (stale inline items after SwapContentsAux, self-prepend, InsertItemsAt with a pointer into the own array, self-move) are fixed '
+         'in /repo as well (c480d7f, d938114, 9a92768, c9f3294): the model mirrors the repaired code, the trigger classes are in the random stream and '
+         'corpus/C16/q-regress-*.ops are regression cases.  Trusted: Lean kernel, '
          'the statement file, the correspondence harness (sampling).  The model is hand-written; a defect the generators never reach and the model does not '
          'share stays invisible.'}
